@@ -197,18 +197,28 @@ let handle kind id _hd rest =
       match String.split_on_char ';' run with
       | [c; e] ->
         (match toks c with
-         | "call" :: ct -> let r = mk_callrun id pre (parse_cfg gg ct) in List.iter (call_event r) (toks e); call_finish r
+         | "call" :: ct ->
+           (* "*<k>" = k unobserved repetitions of the run beforehand: a run only reads the graph value *)
+           let r = mk_callrun id pre (parse_cfg gg ct) in
+           List.iter (call_event r) (List.filter (fun t -> not (String.length t >= 2 && t.[0] = '*')) (toks e)); call_finish r
          | "stream" :: ct -> stream_run id pre (parse_scfg gg ct) (toks e)
          | _ -> failwith "bad run kind")
       | _ -> failwith "bad run") runs
   | "Y", [ops; ca; cb; evs] ->
     let gg = build_graph id ops in
-    let ra = mk_callrun id "A." (parse_cfg gg (toks ca)) and rb = mk_callrun id "B." (parse_cfg gg (toks cb)) in
+    let cfa = parse_cfg gg (toks ca) and cfb = parse_cfg gg (toks cb) in
+    let ra = ref (mk_callrun id "A." cfa) and rb = ref (mk_callrun id "B." cfb) in
+    let ga = ref 1 and gb = ref 1 in
+    (* "!" finishes the side's run and starts a fresh one (prefix A2. / B2. ...): in the model a fresh init *)
+    let handle r g side cf tok =
+      if tok = "!" then begin
+        call_finish !r; incr g; r := mk_callrun id (Printf.sprintf "%s%d." side !g) cf
+      end else call_event !r tok in
     List.iter (fun t ->
-      if String.length t > 2 && String.sub t 0 2 = "A:" then call_event ra (String.sub t 2 (String.length t - 2))
-      else if String.length t > 2 && String.sub t 0 2 = "B:" then call_event rb (String.sub t 2 (String.length t - 2))
+      if String.length t > 2 && String.sub t 0 2 = "A:" then handle ra ga "A" cfa (String.sub t 2 (String.length t - 2))
+      else if String.length t > 2 && String.sub t 0 2 = "B:" then handle rb gb "B" cfb (String.sub t 2 (String.length t - 2))
       else failwith ("bad pair event " ^ t)) (toks evs);
-    call_finish ra; call_finish rb
+    call_finish !ra; call_finish !rb
   | "Z", [ops; ca; cb; evs] ->
     (* two streams on one graph: in the model they share nothing, so creating them up front is the same *)
     let gg = build_graph id ops in
